@@ -171,11 +171,37 @@ pub fn run_batch(spec: &PropertySpec, seed: u64, thorough: bool, runs: u64, max_
         found: Vec::new(),
     }));
     let workers: usize = std::env::var("VERIF_WORKERS").ok().and_then(|s| s.parse().ok()).unwrap_or(16);
+    // hang monitor: (run index + 1, start in ms since t0) per worker; a run that takes more than
+    // HANG_SECS of real time never reached a kernel event (pure CPU loop) and is reported as a hang
+    let slots: Arc<Vec<(AtomicU64, AtomicU64)>> = Arc::new((0..workers).map(|_| (AtomicU64::new(0), AtomicU64::new(0))).collect());
+    let done = Arc::new(AtomicBool::new(false));
+    {
+        let slots = slots.clone();
+        let done = done.clone();
+        let id = spec.id;
+        std::thread::spawn(move || {
+            while !done.load(Ordering::Relaxed) {
+                std::thread::sleep(std::time::Duration::from_millis(500));
+                let now = t0.elapsed().as_millis() as u64;
+                for (run, start) in slots.iter() {
+                    let r = run.load(Ordering::Relaxed);
+                    let st = start.load(Ordering::Relaxed);
+                    if r != 0 && now.saturating_sub(st) > HANG_SECS * 1000 && !done.load(Ordering::Relaxed) {
+                        let path = write_seed_replay(id, seed, r - 1, thorough, "hang:no-kernel-event", "run exceeded the real-time limit without finishing (non-termination on a finite input)");
+                        println!("violation class=hang:no-kernel-event run_index={}", r - 1);
+                        println!("VIOLATION property={} replay={}", id, path);
+                        std::process::exit(1);
+                    }
+                }
+            }
+        });
+    }
     std::thread::scope(|sc| {
-        for _ in 0..workers {
+        for w in 0..workers {
             let next = next.clone();
             let stop = stop.clone();
             let acc = acc.clone();
+            let slots = slots.clone();
             sc.spawn(move || loop {
                 if stop.load(Ordering::Relaxed) {
                     break;
@@ -189,7 +215,11 @@ pub fn run_batch(spec: &PropertySpec, seed: u64, thorough: bool, runs: u64, max_
                     break;
                 }
                 let describe = i < 4;
+                crate::alloc::set_run(i);
+                slots[w].1.store(t0.elapsed().as_millis() as u64, Ordering::Relaxed);
+                slots[w].0.store(i + 1, Ordering::Relaxed);
                 let r = run_seeded(spec, seed, i, thorough, describe);
+                slots[w].0.store(0, Ordering::Relaxed);
                 let mut a = acc.lock().unwrap();
                 a.evals += 1;
                 let sh = attosim::hash_bytes(r.report.shape.as_bytes());
@@ -232,6 +262,7 @@ pub fn run_batch(spec: &PropertySpec, seed: u64, thorough: bool, runs: u64, max_
             });
         }
     });
+    done.store(true, Ordering::Relaxed);
     let mut a = Arc::try_unwrap(acc).ok().unwrap().into_inner().unwrap();
     a.samples.sort();
     a.found.sort_by_key(|f| f.index);
@@ -246,6 +277,22 @@ pub fn run_batch(spec: &PropertySpec, seed: u64, thorough: bool, runs: u64, max_
         found: a.found,
         wall_s: t0.elapsed().as_secs_f64(),
     }
+}
+
+pub const HANG_SECS: u64 = 90;
+
+/// replay file that names a run by (seed, index) only - used when the run cannot be completed
+/// in-process (hang, abort)
+pub fn write_seed_replay(id: &str, seed: u64, index: u64, thorough: bool, class: &str, msg: &str) -> String {
+    let out_dir = format!("{}/out/replay", std::env::var("VERIF_DIR").unwrap_or_else(|_| "/verif".into()));
+    let _ = std::fs::create_dir_all(&out_dir);
+    let name = format!("{}/{}-{}-{}.json", out_dir, id, seed, index);
+    let v = serde_json::json!({
+        "property": id, "class": class, "message": msg, "seed": seed, "run_index": index,
+        "thorough": thorough, "from_seed": true,
+    });
+    let _ = std::fs::write(&name, serde_json::to_string_pretty(&v).unwrap());
+    name
 }
 
 /// Tape shrinking: keep a candidate when the same violation class persists.
@@ -403,7 +450,13 @@ pub fn replay_file(spec_for: &dyn Fn(&str) -> Option<&'static PropertySpec>, pat
     let spec = spec_for(id).ok_or_else(|| format!("unknown property {}", id))?;
     let tape = |k: &str| -> Vec<u64> { v[k].as_array().map(|a| a.iter().filter_map(|x| x.as_u64()).collect()).unwrap_or_default() };
     let thorough = v["thorough"].as_bool().unwrap_or(false);
-    let r = run_tapes(spec, &tape("gen_tape"), &tape("sched_tape"), thorough, true, trace);
+    let r = if v["from_seed"].as_bool().unwrap_or(false) {
+        let idx = v["run_index"].as_u64().unwrap_or(0);
+        crate::alloc::set_run(idx);
+        run_seeded(spec, v["seed"].as_u64().unwrap_or(0), idx, thorough, true)
+    } else {
+        run_tapes(spec, &tape("gen_tape"), &tape("sched_tape"), thorough, true, trace)
+    };
     Ok(ReplayOutcome {
         verdict: r.report.verdict.clone(),
         hash: r.report.stats.hash,
